@@ -396,3 +396,77 @@ class parse_chain_first_valid:
 
 
 CONTRACTS += [parse_chain_first_valid]
+
+
+class parse_with_formats_range_ends:
+    """date.parse_with_formats with TIMEZONE / TO_TIMEZONE conversions (C02: no OverflowError may
+    escape; C12: the conversion keeps the instant): for every written date-time in [0001, 9999] -
+    the range ends included - and fixed offsets up to +-14 h: no exception; a result exactly when
+    the converted wall clock is representable, and then it is that wall clock."""
+
+    name = "date.parse_with_formats/no-escape-at-the-range-ends"
+    func = "dateparser.date.parse_with_formats"
+    props = ["C02", "C12", "C14"]
+
+    @staticmethod
+    def cases(thorough=False):
+        out = []
+        for tz, to in (("UTC", "UTC+14:00"), ("UTC", "UTC-12:00"), ("UTC+14:00", "UTC"), ("UTC-12:00", "UTC"),
+                       ("UTC+05:30", None), ("UTC", None)):
+            for aware in ((True, False, "default") if thorough else (False,)):
+                out.append(dict(TIMEZONE=tz, TO_TIMEZONE=to, AWARE=aware))
+        return out
+
+    @staticmethod
+    def setup(inp, case):
+        from dateparser.date import parse_with_formats as f
+        from pyvc.harness import build, make_settings
+
+        kw = dict(TIMEZONE=case["TIMEZONE"])
+        if case["TO_TIMEZONE"]:
+            kw["TO_TIMEZONE"] = case["TO_TIMEZONE"]
+        if case["AWARE"] != "default":
+            kw["RETURN_AS_TIMEZONE_AWARE"] = case["AWARE"]
+        st = make_settings(**kw)
+        s, fl = build(inp, [("Y", 4), "-", ("m", 2), "-", ("D", 2), " ", ("H", 2), ":", ("T", 2)])
+        from pyvc.cal import dim
+
+        valid = And(fl["Y"] >= 1, fl["m"] >= 1, fl["m"] <= 12, fl["D"] >= 1,
+                    fl["D"] <= dim(fl["Y"], Ite(And(fl["m"] >= 1, fl["m"] <= 12), fl["m"], 1)),
+                    fl["H"] <= 23, fl["T"] <= 59)
+        inp.assume(valid)
+        return f, (s, ["%Y-%m-%d %H:%M"], st), {}, dict(f=fl)
+
+    @staticmethod
+    def post(case, g, out):
+        from pyvc.cal import dt_wall_us, ordinal
+
+        if not out.ok:
+            return {"no-exception-escapes": False}
+        dd = out.value
+        fl = g["f"]
+
+        def off(name):
+            if name in (None, "UTC"):
+                return 0
+            sign = 1 if name[3] == "+" else -1
+            return sign * (int(name[4:6]) * 60 + int(name[7:9])) * 60 * 1000000
+
+        DAY = 86400 * 1000000
+        wall = ordinal(fl["Y"], fl["m"], fl["D"]) * DAY + (fl["H"] * 60 + fl["T"]) * 60 * 1000000
+        if case["TO_TIMEZONE"]:
+            want = wall - off(case["TIMEZONE"]) + off(case["TO_TIMEZONE"])
+        else:
+            want = wall
+        in_range = And(want >= DAY, want < 3652060 * DAY)
+        res = {"no-exception-escapes": True}
+        if dd.date_obj is None:
+            res["None-only-when-the-converted-value-leaves-the-range"] = Not(in_range)
+        else:
+            res["None-only-when-the-converted-value-leaves-the-range"] = True
+            res["in-range=>the-written-instant-in-the-target-zone"] = Implies(
+                in_range, dt_wall_us(dd.date_obj) == want)
+        return res
+
+
+CONTRACTS += [parse_with_formats_range_ends]
